@@ -1,4 +1,4 @@
-\* C04: every call history of depth 3 over the reduced menu (16 operations); properties checked at every reachable state
+\* C04: every call history of depth 3 over the reduced menu (17 operations); properties checked at every reachable state
 CONSTANTS
     Depth = 3
     EmitOn = TRUE
@@ -13,5 +13,6 @@ INVARIANT SegChain
 INVARIANT NowIsLast
 INVARIANT StepIntervals
 INVARIANT ProtocolIsComposition
+INVARIANT FailedFrozen
 INVARIANT Emit
 CHECK_DEADLOCK FALSE
